@@ -438,7 +438,7 @@ func (vc *VC) effectTag(key string) string {
 }
 
 // logEffect appends one event to the trace.
-func (vc *VC) logEffect(st *State, key string, recv string, strs []string, err string, payload string) {
+func (vc *VC) logEffect(st *State, key string, recv string, strs []string, err string, payload string, ptr string) {
 	tc, lc := vc.traceCells(st)
 	s1, s2, s3 := "\"\"", "\"\"", "\"\""
 	if len(strs) > 0 {
@@ -459,7 +459,10 @@ func (vc *VC) logEffect(st *State, key string, recv string, strs []string, err s
 	if payload == "" {
 		payload = "0"
 	}
-	ev := fmt.Sprintf("(mk_ev %s %s %s %s %s %s %s)", vc.effectTag(key), recv, s1, s2, s3, err, payload)
+	if ptr == "" {
+		ptr = "0"
+	}
+	ev := fmt.Sprintf("(mk_ev %s %s %s %s %s %s %s %s)", vc.effectTag(key), recv, s1, s2, s3, err, payload, ptr)
 	ln := st.cells[lc]
 	st.cells[tc] = vc.define("trace", "(Array Int Event)", fmt.Sprintf("(store %s %s %s)", st.cells[tc], ln, ev))
 	st.cells[lc] = vc.define("tlen", "Int", fmt.Sprintf("(+ %s 1)", ln))
